@@ -31,6 +31,7 @@ import struct
 import types
 
 from xdis.codetype import Code2, Code3
+from xdis.cross_types import LongTypeForPython3, UnicodeForPython3
 from xdis.version_info import PYTHON3, PYTHON_VERSION_TRIPLE, version_tuple_to_str
 
 try:
@@ -96,6 +97,8 @@ class _Marshaller:
     def __init__(self, writefunc, python_version=None):
         self._write = writefunc
         self.python_version = python_version
+        # > 0 while the contents of a Python 2 code object are written
+        self.py2_depth = 0
 
     def dump(self, x):
         if (
@@ -183,6 +186,17 @@ class _Marshaller:
     dispatch[int] = dump_int
 
     def dump_long(self, x):
+        if self.py2_depth and not isinstance(x, LongTypeForPython3):
+            # Inside a Python 2 code object a plain int must stay an
+            # int: TYPE_LONG would load as a Python 2 long.
+            if -0x80000000 <= x < 0x80000000:
+                self._write(TYPE_INT)
+                self.w_long(x)
+                return
+            if -0x8000000000000000 <= x < 0x8000000000000000:
+                self._write(TYPE_INT64)
+                self.w_long64(x)
+                return
         self._write(TYPE_LONG)
         sign = 1
         if x < 0:
@@ -245,6 +259,9 @@ class _Marshaller:
     def dump_string(self, x):
         # XXX we can't check for interned strings, yet,
         # so we (for now) never create TYPE_INTERNED or TYPE_STRINGREF
+        if PYTHON3 and isinstance(x, str):
+            # TYPE_STRING holds bytes: the count must be a byte count
+            x = x.encode("utf-8", "surrogatepass")
         self._write(TYPE_STRING)
         self.w_long(len(x))
         self._write(x)
@@ -254,6 +271,19 @@ class _Marshaller:
         dispatch[bytearray] = dump_string
 
     def dump_unicode(self, x):
+        if self.py2_depth and PYTHON3:
+            if isinstance(x, UnicodeForPython3):
+                # a Python 2 unicode object; .value holds its UTF-8 bytes
+                raw = x.value
+                if not isinstance(raw, bytes):
+                    raw = str(raw).encode("utf-8", "surrogatepass")
+                self._write(TYPE_UNICODE)
+                self.w_long(len(raw))
+                self._write(raw)
+            else:
+                # a Python 2 str which the unmarshaller showed as text
+                self.dump_string(x.encode("utf-8", "surrogatepass"))
+            return
         self._write(TYPE_UNICODE)
         if PYTHON3:
             # TYPE_UNICODE holds UTF-8 bytes preceded by their count (not
@@ -313,6 +343,13 @@ class _Marshaller:
         # but Python 3 marshaling, by default, will dump strings as
         # unicode. Force marsaling this type as string.
 
+        self.py2_depth += 1
+        try:
+            self.dump_code2_fields(x)
+        finally:
+            self.py2_depth -= 1
+
+    def dump_code2_fields(self, x):
         self._write(TYPE_CODE)
         self.w_long(x.co_argcount)
         self.w_long(x.co_nlocals)
@@ -320,9 +357,8 @@ class _Marshaller:
         self.w_long(x.co_flags)
         self.dump_string(x.co_code)
 
-        # If running in a Python3 interpreter, some constants will get
-        # converted from string to unicode. For now, let's see if
-        # that's okay.
+        # While py2_depth is set, text is written back as the Python 2
+        # str or unicode it came from, and ints stay ints.
         self.dump(x.co_consts)
 
         # The tuple "names" in Python2 must have string entries
